@@ -16,7 +16,21 @@ import (
 //verif:include ../db/zz_verif_world.go
 //verif:harness H12_reload property=C12 native=no quick=layout=2,sched=1,partial=0;layout=0,sched=1,partial=0;layout=2,sched=1,partial=1 thorough=layout=1,sched=2,partial=0;layout=2,sched=2,partial=0;layout=1,sched=1,partial=1
 
-func H12_reload() {
+func H12_reload() { verifReloadScenario() }
+
+//verif:harness H19_reload property=C19 native=no quick=layout=2,sched=1,partial=0 thorough=layout=0,sched=1,partial=0;layout=2,sched=1,partial=1
+
+// H19_reload: the cache-outcome counters in the same scenario (a query in flight across a
+// reload, then a later query): every query that reached the cache look-up counted exactly one
+// of hit / missed / expired.
+func H19_reload() {
+	env := verifReloadScenario()
+	c := env.stats.counters
+	nd.Assert(c["DNS_queries"] == 2, "two-queries-counted")
+	nd.Assert(c["DNS_cache.hit"]+c["DNS_cache.missed"]+c["DNS_cache.expired"] == c["DNS_queries"], "one-cache-outcome-per-query")
+}
+
+func verifReloadScenario() *verifEnv {
 	verifLayout = nd.Param("layout")
 	verifPathGen = map[string]int{"/db/gen0": 0}
 	verifInstalled = 0
@@ -72,4 +86,5 @@ func H12_reload() {
 	for _, g := range verifResponseGens(ask(2)) {
 		nd.Assert(g == 1, "no-previous-generation-after-completed-reload")
 	}
+	return env
 }
